@@ -17,6 +17,7 @@ import (
 //   ; S epoch block id w ...               sealing rule
 //   ; E i epoch creator seq lamport frame p1 p2 ...   event definition (parents = event numbers, self-parent first)
 //   ; P i | X i f | B ep cr seq lam p.. | b ep cr seq lam p.. | R | RESET ep id w .. | M i | G f
+//   ; Q i j                                ForklessCause(event i, event j) asked of the instance's index
 //   ; Y n ep cr seq lam frame p..          Process of an inline "ghost" event (id tail n) that is defined nowhere else
 //   ; ALTFROM ep id w ..                   (C09 only; no-op marker) the reference instance starts here
 // The second (reference) instance of the differential properties is DERIVED from the op list:
@@ -379,6 +380,23 @@ func execOne(sc *Scenario, groups [][]string, stat func(string)) []string {
 			}
 			stat("op_M")
 			emit(append([]string{"m"}, inst.Merged(h)...)...)
+		case "Q":
+			if len(g) < 3 {
+				emit("nodef")
+				break
+			}
+			ha, oka := r.ids[int(pu(g[1]))]
+			hb, okb := r.ids[int(pu(g[2]))]
+			if !oka || !okb {
+				emit("nodef")
+				break
+			}
+			if !inst.Processed(ha) || !inst.Processed(hb) {
+				emit("s3")
+				break
+			}
+			stat("op_Q")
+			emit(inst.FC(ha, hb))
 		case "G":
 			if len(g) < 2 {
 				emit("nodef")
